@@ -100,11 +100,15 @@ def rule_stepwise(ck, rid="C03.R2"):
     f = repo.fn("Linear2StageBattery._charge_stepwise")
     fl = flow_of(f)
     st = _power_store(fl)
-    if len(st) != 1 or not isinstance(st[0][0].stmt.value, ast.Name):
+    # one store after the two regions, or one store per region (early-return form): every definition of the stored variable that
+    # reaches any of the stores is judged in the region(s) its path conditions allow
+    if not st or not all(isinstance(x[0].stmt, ast.Assign) and isinstance(x[0].stmt.value, ast.Name) for x in st) \
+            or len({x[0].stmt.value.id for x in st}) != 1:
         raise AnalysisError("_charge_stepwise: store of the granted power not recognised")
-    n, t = st[0]
-    var = n.stmt.value.id
-    defs = fl.defs_at(n, var)
+    var = st[0][0].stmt.value.id
+    defs = set()
+    for n, t in st:
+        defs |= set(fl.defs_at(n, var))
     ck.floor(rid, len(defs), 2, "definitions of the granted power reaching the state update")
     DECL = frozenset({"self._soc", "self._transition_soc", "self._max_power"})
 
@@ -207,6 +211,21 @@ def rate_vars(fl, f):
     return cand, maxn
 
 
+def capped_aliases(fl, var, maxn):
+    """names defined as min(<var>, <maxn>) (any argument order / list form): the cap written into a second variable"""
+    out = set()
+    for n in fl.cfg.nodes:
+        for nm, how in fl._defs.get(n, {}).items():
+            if nm == var or how[0] != "assign" or how[1] is None:
+                continue
+            v = how[1]
+            if isinstance(v, ast.Call) and call_name(v) in MIN_NAMES:
+                names = {x.id for x in ast.walk(v) if isinstance(x, ast.Name)}
+                if var in names and maxn in names and names <= {var, maxn, "np", "numpy", "min"}:
+                    out.add(nm)
+    return out
+
+
 def rule_pilot_cap(ck, rid="C03.R4"):
     repo = ck.repo
     f = repo.fn("Linear2StageBattery._charge")
@@ -270,6 +289,21 @@ def rule_pilot_cap(ck, rid="C03.R4"):
                 ck.require(not bad, rid, f, u if not isinstance(e, ast.stmt) else e, ok=f"`{var}` is capped by `{maxn}` on every path to this use",
                            bad=f"`{var}` (the pilot's SoC rate) can reach this use without having been capped by `{maxn}`: the battery could charge above its maximum power",
                            sink="pilot-dsoc-uncapped")
+    # the cap written as a second variable (`capped = min(raw, maximum)`): the raw rate is used nowhere else (checked above, every other
+    # use of it would have been judged), and every use of the capped variable is capped by construction
+    for n in cfg.nodes:
+        for nm, how in fl._defs.get(n, {}).items():
+            if nm == var or how[0] != "assign" or how[1] is None:
+                continue
+            ev = fl.expand(how[1], n)
+            if isinstance(how[1], ast.Call) and call_name(how[1]) in MIN_NAMES and var in {x.id for x in ast.walk(how[1]) if isinstance(x, ast.Name)} \
+                    and frozenset(sig(fl.expand(ast.Name(id=maxn, ctx=ast.Load()), n))) in upper_bounds(ev):
+                for m in cfg.nodes:
+                    for e in cfg.node_exprs(m):
+                        for u in [e] + list(walk_local(e)):
+                            if isinstance(u, ast.Name) and u.id == nm and isinstance(u.ctx, ast.Load) and fl.defs_at(m, nm) == frozenset({n}):
+                                n_uses += 1
+                                ck.holds(rid, f, u, f"`{nm}` = min(`{var}`, `{maxn}`): capped by construction")
     ck.floor(rid, n_uses, 3, f"uses of {var} after the cap")
 
 
